@@ -534,6 +534,13 @@ def models():
     ms.append(M('extra2', [ey, iz], [K('Ey')], keys=['a', '_yatiml_extra', 'v'],
                 scalars=[S_42], mtags=('map', '!Iz'), qn=7, tn=7, rootk='m',
                 nodup=True, qtags=(), rtypes=[]))
+    # one scalar shared between a Union[str, Sequence[string-like]] position and
+    # a string-like position (the three sequence annotations must agree)
+    us5 = C('Us5', kind='userstring')
+    hu = C('Hu', [P('a', U(STR, L(K('Us5')))), P('b', K('Us5'))])
+    ms.append(M('seqstr', [us5, hu], [K('Hu')], keys=['a', 'b'],
+                scalars=[S_ABC], qn=5, tn=5, an=5, rootk='m', nodup=True,
+                aliask=('s',), cyc=False, rtypes=[]))
     # ---- long and unusual strings as attributes of an object -------------------
     ls = C('Ls', [P('d', STR), P('e', STR, ['str', 'abc'])])
     ms.append(M('longstr', [ls], [K('Ls'), L(STR), D(STR)], keys=['d', 'e'],
